@@ -19,10 +19,10 @@ import (
 // error is made there sees the root environment's idea of "the form being evaluated" (the enclosing top-level form,
 // one of its sub-forms, or the last form of a source loaded earlier).  Three parts:
 //
-//  1. loadLeaves join the main product (every leaf x every context nesting x every layout, against the reference);
-//  2. rejectedLoads: every text over the reader's token alphabet up to a length, handed to every load builtin in every
-//     context (the reference model rejects at the call expression exactly the texts the runtime's own reader rejects
-//     when the host hands them to it directly);
+//  1. loadLeaves: fixed rejections at every context nesting up to depth 2 in every layout, against the reference;
+//  2. rejectedLoads: every text over the reader's token alphabet up to a length that the runtime's own reader rejects
+//     when the host hands it over directly, handed to every load builtin in every context (the reference model
+//     rejects it at the call expression);
 //  3. hostHistories: every history of host loads into ONE runtime (earlier sources that loaded, failed while running,
 //     could not be read) ending in every such text: the location the host receives lies within the source that
 //     failed, never in a source loaded earlier.
@@ -40,6 +40,7 @@ var loadLeaves = []leaf{
 	{"load-file-unreadable", "(load-file \"bad.lisp\")", false},
 	{"load-file-missing", "(load-file \"nosuch.lisp\")", false},
 	{"load-file-readable", "(car (load-file \"ok.lisp\"))", false}, // the load succeeds, the NEXT rejection is car's
+	{"load-string-readable", "(car (load-string \"(+ 1 2)\"))", false},
 }
 
 // mapLibrary is a lisp.SourceLibrary over a fixed table.
@@ -180,20 +181,45 @@ func rejectedLoads(r *core.Run) {
 	r.Bound("rejected_load_texts", len(texts))
 	r.Bound("rejected_load_texts_the_reader_rejects", unreadable)
 	r.Bound("rejected_load_layouts", len(layouts))
-	r.Rule("load builtins rejecting their argument: (a) in the main product, load-string of a non-string, load-string / load-bytes / load-file of text the reader cannot read, load-file of a file the library does not have, and a rejection right after a successful load-file; (b) every text of up to the bounded number of tokens over the reader's token alphabet ( ) [ ] \" ' a 1, handed to each of load-string / load-bytes / load-file (as the content of a library file) at top level and inside each of the contexts. Reference: the builtin rejects at its call expression exactly the texts the runtime's reader rejects when the host hands them to it directly, and the trace is the active-call chain at that call. Non-trivial = the program fails; distinct by source text")
-	r.Assume("a text the runtime's reader accepts but the reference reader does not, a loaded text that fails while it runs (its failing form lies in another source: the nested-load part decides those), and load-file in a runtime without a source library are not judged by the rejected-load part")
+	r.Rule("load builtins rejecting their argument: (a) at every nesting of up to 2 contexts in the 3 layouts: load-string of a non-string, load-string / load-bytes / load-file of text the reader cannot read, load-file of a file the library does not have, and a rejection right after a successful load-file; (b) every text of up to the bounded number of tokens over the reader's token alphabet ( ) [ ] \" ' a 1 that the runtime's reader rejects when the host hands it over directly, handed to each of load-string / load-bytes / load-file (as the content of a library file) at top level and inside each of the contexts. Reference: the builtin rejects such a text at its call expression, and the trace is the active-call chain at that call. Non-trivial = the program fails; distinct by source text")
+	r.Assume("not judged by the rejected-load part: token texts the reader accepts (what a loaded text does is the nested-load part's subject; the continuation after a successful load is covered by the fixed leaves), a loaded text that fails while it runs, and load-file in a runtime without a source library")
 	type job struct {
-		text   string
-		loader int
-		ctx    int
+		l      leaf
+		files  map[string]string
+		ctx    []int // innermost first
 		layout int
 	}
 	var jobs []job
+	// (a) the fixed leaves at every context nesting up to depth 2, in the three layouts
+	seqs := [][]int{nil}
+	for c := range contexts {
+		seqs = append(seqs, []int{c})
+	}
+	for c := range contexts {
+		for d := range contexts {
+			seqs = append(seqs, []int{c, d})
+		}
+	}
+	for _, l := range loadLeaves {
+		for _, sq := range seqs {
+			for m := 0; m < 3; m++ {
+				jobs = append(jobs, job{l, loadFiles, sq, m})
+			}
+		}
+	}
+	r.Bound("rejected_load_fixed_leaves", len(loadLeaves))
+	r.Bound("rejected_load_fixed_leaf_context_depth", 2)
+	r.Bound("rejected_load_fixed_leaf_programs", len(jobs))
+	// (b) every token text through every load builtin, at top level and in every context
 	for _, t := range texts {
+		if readable(t) {
+			continue // accepted: what the loaded text then does is not this part's subject
+		}
 		for lo := range textLoaders {
-			for ci := -1; ci < len(contexts); ci++ {
+			expr, files := textLoaders[lo].expr(t)
+			for _, sq := range seqs[:1+len(contexts)] {
 				for _, m := range layouts {
-					jobs = append(jobs, job{t, lo, ci, m})
+					jobs = append(jobs, job{leaf{id: textLoaders[lo].id, src: expr}, files, sq, m})
 				}
 			}
 		}
@@ -201,12 +227,7 @@ func rejectedLoads(r *core.Run) {
 	r.Bound("rejected_load_programs", len(jobs))
 	core.ParallelRange(r, int64(len(jobs)), nil, func(_ struct{}, i int64) {
 		j := jobs[i]
-		expr, files := textLoaders[j.loader].expr(j.text)
-		var idx []int
-		if j.ctx >= 0 {
-			idx = []int{j.ctx}
-		}
-		k, ok := buildLeaf(leaf{id: textLoaders[j.loader].id, src: expr}, files, idx, j.layout)
+		k, ok := buildLeaf(j.l, j.files, j.ctx, j.layout)
 		if !ok {
 			return
 		}
@@ -225,14 +246,20 @@ func rejectedLoads(r *core.Run) {
 		if cls == "" {
 			return
 		}
-		full := cls + ":" + k.Leaf + ":" + ifs(k.Ctx == "", "top", k.Ctx)
+		first := ifs(k.Ctx == "", "top", k.Ctx) // the innermost context, as in the main product
+		if n := strings.Index(first, "<"); n >= 0 {
+			first = first[:n]
+		}
+		full := cls + ":" + k.Leaf + ":" + first
 		if r.Seen(full) >= 1 {
 			r.CountOnly(full)
 			return
 		}
-		if c2, _ := judge(k); c2 == "" {
-			r.Flaky(k)
-			return
+		for n := 0; n < 5; n++ { // re-confirm in fresh runtimes
+			if c2, _ := judge(k); c2 != cls {
+				r.Flaky(k)
+				return
+			}
 		}
 		r.Violate("c18", full, k, "location = the load call expression, trace = the calls active at it", detail, "")
 	})
@@ -371,9 +398,11 @@ func hostHistories(r *core.Run) {
 			r.CountOnly(full)
 			return
 		}
-		if c2, _ := historyJudge(k); c2 == "" {
-			r.Flaky(k)
-			return
+		for n := 0; n < 5; n++ { // re-confirm in fresh runtimes
+			if c2, _ := historyJudge(k); c2 != cls {
+				r.Flaky(k)
+				return
+			}
 		}
 		r.Violate("c18", full, k, "a location within the source whose load failed (or none, for a source the reader rejected)", detail, "")
 	})
